@@ -11,6 +11,8 @@ RULE = ('histories of up to 10 steps on one object (scalar and array writes by c
 ASSUMPTIONS = ['histories use real-valued writes; complex writes are checked one write at a time (flags, callbacks, reset)', 'the mechanism that invokes callbacks (hasattr/getattr loop) is exercised, not modelled']
 EV = {0: 'ovf', 1: 'unf', 2: 'inacc', 3: 'change'}
 
+def A_fmt(x): return (bool(x.signed), int(x.n_word), int(x.n_frac))
+
 def gen_history(rng):
     s, nw, nf = S.random_format(rng, max_word=rng.choice([6, 12, 52]))
     r, o = rng.choice(RMODES), rng.choice(OMODES)
@@ -38,7 +40,7 @@ def gen_history(rng):
             steps.append({'op': 'reset'})
         else:
             steps.append({'op': 'arith', 'fn': rng.choice(['+', '-', '*']), 'y_inexact': rng.random() < 0.5})
-    return {'s': s, 'nw': nw, 'nf': nf, 'r': r, 'o': o, 'n': n, 'steps': steps, 'reg': rng.choice(['ctor', 'ctor', 'like', 'append'])}
+    return {'s': s, 'nw': nw, 'nf': nf, 'r': r, 'o': o, 'n': n, 'steps': steps, 'reg': rng.choice(['ctor', 'ctor', 'like', 'append', 'resized', 'like_sized']), 'dw': rng.choice([-3, -1, 1, 2, 5])}
 
 def run_history(h, res):
     fx = lib.impl(); import numpy as np
@@ -48,6 +50,16 @@ def run_history(h, res):
         init = 0 if h['n'] == 0 else [0] * h['n']
         if h.get('reg') == 'like':      # the callbacks registered on an object created from a template (like=) by the callbacks keyword
             tmpl = fx.Fxp(init, s, nw, nf, rounding=h['r'], overflow=h['o']); x = fx.Fxp(init, like=tmpl, callbacks=[rec])
+        elif h.get('reg') in ('resized', 'like_sized') and nw - nf - (1 if s else 0) >= 0:
+            # the format reached from ANOTHER word size through the (n_frac, n_int) pair: resize(n_frac=, n_int=) of an existing object, or like= with both sizes given
+            w0 = max(1 + (1 if s else 0), nw + h.get('dw', 2)); ni = nw - nf - (1 if s else 0)
+            if h['reg'] == 'resized':
+                x = fx.Fxp(init, s, w0, nf, rounding=h['r'], overflow=h['o'], callbacks=[rec]); x.resize(n_frac=nf, n_int=ni)
+            else:
+                tmpl = fx.Fxp(init, s, w0, nf, rounding=h['r'], overflow=h['o']); x = fx.Fxp(init, like=tmpl, n_frac=nf, n_int=ni, callbacks=[rec])
+            if A_fmt(x) != (s, nw, nf):
+                res.fail(h, 'C04: resize(n_frac=, n_int=) / like= with both sizes did not give the requested format', expected=(s, nw, nf), got=A_fmt(x)); return
+            x.reset()
         elif h.get('reg') == 'append':  # registered afterwards on the object's own list
             x = fx.Fxp(init, s, nw, nf, rounding=h['r'], overflow=h['o']); x.callbacks.append(rec)
         else:
